@@ -25,7 +25,10 @@ RULE = (
     "the original result). (2) Hypothesis-generated histories over {run, edit any of mid/child/leaf, "
     "revert (the root included), fault at commit k / statement s of a run, transfer all records into a fresh repository by push/pull or "
     "by export -> JSON lines -> import and continue there}: every completed run must equal the "
-    "fresh-backend run of the same code. Structural companion reported with failures: call nodes "
+    "fresh-backend run of the same code. (3) Schedule sweep: a family in which the shallow task reaches "
+    "its deeper subtree only through a call that duplicates a sibling's call (CSE) is recorded under every "
+    "completion schedule of length 4 over 3 choices, then each subtree task is edited and reverted. "
+    "Structural companion reported with failures: call nodes "
     "that a shallow lookup may return and that have no CallSubtreeTask rows. Non-trivial = a subtree "
     "edit after a recording that was interrupted, retried or imported, followed by a shallow-cached run."
 )
@@ -47,6 +50,14 @@ FIXED = [
     {"name": "shallow-root", "init": [{"k": "call2", "callees": [1, 2], "opts": {"check_valid": "shallow"}},
                                       {"k": "catch", "callee": 3, "add": 0, "opts": {"check_valid": "shallow"}},
                                       {"k": "call", "callee": 3, "shift": 1, "add": 2}, {"k": "raise_if", "mod": 5, "add": 1}, {"k": "parse", "add": 0}],
+     "arg": 1},
+    # the shallow task t2 reaches t3 -> t4 only through a call that is a duplicate within the
+    # execution (t1 made the same call t3(x) first): it is answered by CSE, without child jobs
+    {"name": "cse-below-shallow", "init": [{"k": "call2s", "callees": [1, 2]},
+                                           {"k": "call", "callee": 3, "shift": 0, "add": 1},
+                                           {"k": "call", "callee": 3, "shift": 0, "add": 2, "opts": {"check_valid": "shallow"}},
+                                           {"k": "call", "callee": 4, "shift": 0, "add": 0}, {"k": "arith", "mul": 1, "add": 1},
+                                           {"k": "parse", "add": 0}],
      "arg": 1},
 ]
 
@@ -352,13 +363,42 @@ def run_history_case(ctx: Ctx, case) -> None:
                  nontrivial=bool(info and info["nt"]))
 
 
+def schedule_sweep(ctx: Ctx, w) -> None:
+    """Fault-free: the recording run under every completion schedule of length 4 over 3 choices
+    then an edit (thorough: and revert) of each task below the shallow one (quick: the deepest one).
+    Which of two equivalent calls runs first, and whether the second one finds its twin pending or
+    finished, is decided by the schedule."""
+    import itertools
+
+    scheds = list(itertools.product(range(3), repeat=4))
+    n = len(w["init"])
+    if ctx.thorough:
+        scheds = shard_range(ctx, scheds)
+        edits = list(range(1, n - 1))
+    else:
+        edits = [n - 2]                # quick: every schedule, the deepest task only, no revert step
+    for d in scheds:
+        for i in edits:
+            ops = [["run", list(d)], ["edit", i, 3], ["run", []]] + ([["revert", i], ["run", []]] if ctx.thorough else [])
+            case = {"history": True, "family": w, "ops": ops}
+            try:
+                run_history(ctx, case)
+            except Violation as v:
+                ctx.case({"sweep": w["name"], "schedule": list(d), "edit": i}, labels=["sweep", "violating"], nontrivial=True)
+                if not ctx.absorb(v):
+                    raise
+                continue
+            ctx.case({"sweep": w["name"], "schedule": list(d), "edit": i}, labels=["sweep"], nontrivial=True)
+
+
 def check(ctx: Ctx) -> None:
     C.quiet_logs()
     fams = list(FIXED[:1]) if not ctx.thorough else shard_range(ctx, list(FIXED))
     for w in fams:
         enumerate_family(ctx, w)
     ctx.coverage_extra["exhaustive"] = True
-    ctx.given(histories(), lambda c: run_history_case(ctx, c), ctx.n(40, 1600))
+    schedule_sweep(ctx, FIXED[2])
+    ctx.given(histories(), lambda c: run_history_case(ctx, c), ctx.n(30, 1600))
 
 
 def replay(ctx: Ctx, case) -> None:
